@@ -8,21 +8,28 @@
 (* injective, restores the work register), then tabulates EVERY basis      *)
 (* input of the documented domain together with the expected basis output  *)
 (* (indices of computational basis states on wires 0..N-1) and emits it.   *)
+(* The work is done in the action (explored in parallel); the invariants   *)
+(* read the recorded results.                                              *)
 (***************************************************************************)
 EXTENDS Arith, Json, IOUtils, SequencesExt
 CONSTANT NCONFIGS
 Configs == JsonDeserialize(IOEnv.CFG_FILE)
-VARIABLES cid, done
-Init == cid \in 1..NCONFIGS /\ done = FALSE
-C == Configs[cid]
+VARIABLES cid, done, chk
+AllTrue == [pre |-> TRUE, fits |-> TRUE, inj |-> TRUE, work |-> TRUE, enc |-> TRUE]
+Init == cid \in 1..NCONFIGS /\ done = FALSE /\ chk = AllTrue
 Emit == /\ ~done /\ done' = TRUE /\ cid' = cid
-        /\ LET T == TLCEval(Table(C))
+        /\ LET c == Configs[cid]
+               pre == Pre(c)
+               ft == TLCEval(IF pre THEN FTable(c) ELSE <<>>)
+               T == TLCEval(TableT(c, ft))
                tab == SetToSortSeq(T, LAMBDA a, b : a[1] < b[1])
-           IN PrintT(ToJson([cid |-> cid, pre |-> Pre(C), n |-> Cardinality(T), tab |-> tab]))
+           IN /\ chk' = [pre |-> pre, fits |-> FitsT(c, ft), inj |-> InjectiveT(ft), work |-> WorkRestoredT(c, ft),
+                         enc |-> EncInjectiveT(c, ft)]
+              /\ PrintT(ToJson([cid |-> cid, pre |-> pre, n |-> Cardinality(T), tab |-> tab]))
 Next == Emit
-PreOK == Pre(Configs[cid])
-FitsOK == Pre(Configs[cid]) => Fits(Configs[cid])
-InjectiveOK == Pre(Configs[cid]) => Injective(Configs[cid])
-WorkRestoredOK == Pre(Configs[cid]) => WorkRestored(Configs[cid])
-EncOK == Pre(Configs[cid]) => EncInjective(Configs[cid])
+PreOK == chk.pre
+FitsOK == chk.fits
+InjectiveOK == chk.inj
+WorkRestoredOK == chk.work
+EncOK == chk.enc
 =============================================================================
